@@ -29,7 +29,19 @@ func harness(sc c18ops.Scenario, bound int) *explore.Harness {
 			want[fmt.Sprintf("%d/%s", ti, op.Name)] = op.Run()
 		}
 	}
-	return &explore.Harness{Name: sc.Name, Cost: "preempt", Bound: bound, Param: fmt.Sprintf("%d threads x %d ops on shared codec instances", len(sc.Threads), len(sc.Threads[0])), Body: func(o *explore.Obs) {
+	return &explore.Harness{Name: sc.Name, Cost: "preempt", Bound: bound, GlobalState: true, Param: fmt.Sprintf("%d threads x %d ops on shared codec instances", len(sc.Threads), len(sc.Threads[0])), Body: func(o *explore.Obs) {
+		// prologue: all operations once, one after the other, without scheduling points. Package-level state of
+		// the code under test (caches, pools) outlives an execution; this brings it to the same state at the start
+		// of every execution, whatever the previous schedule left behind - and it is the sequential run itself
+		sched.Quiet(func() {
+			for ti, th := range sc.Threads {
+				for _, op := range th {
+					if got, w := op.Run(), want[fmt.Sprintf("%d/%s", ti, op.Name)]; got != w {
+						o.Fail("C18:sequential-result-unstable", op.Name, "thread %d, %s: the same call, made sequentially again, gives a different result\n now:    %s\n before: %s", ti, op.Name, clip(got), clip(w))
+					}
+				}
+			}
+		})
 		running := len(sc.Threads)
 		for ti, th := range sc.Threads {
 			ti, th := ti, th
